@@ -1,7 +1,7 @@
 """C09 — look_at / look_to build rigid view transforms with the documented handedness."""
 import algebra as A
 from algebra import El, ZERO, ONE
-from core import (Harness, sv, sm, sq, ss, Run, Conv, run_specs, report_dropped, ret_leaves, cmp_struct, single_ret, parse_guard, flat)
+from core import (order_facts, sign_established, Harness, sv, sm, sq, ss, Run, Conv, run_specs, report_dropped, ret_leaves, cmp_struct, single_ret, parse_guard, flat)
 import facts
 import specs
 
@@ -247,8 +247,8 @@ def check_view2(run, S, name, spec, kw):
     up = sv('a1', 2)
     sigma = A.sqrt(A.dot(d, d))
     ls = ret_leaves(r['out'])
-    if len(ls) != 2 or any(l['k'] != 'ret' for g_, l in ls):
-        run.ob('%s:%s:shape' % (PROP, name), False, rule='K5', expected='two Return leaves (the two orientations)', found=[l['k'] for g_, l in ls], where=where)
+    if not (2 <= len(ls) <= 8) or any(l['k'] != 'ret' for g_, l in ls):
+        run.ob('%s:%s:shape' % (PROP, name), False, rule='K5', expected='Return leaves (the two orientations)', found=[l['k'] for g_, l in ls], where=where)
         return
     dets = []
     for li, (guards, leaf) in enumerate(ls):
@@ -263,27 +263,15 @@ def check_view2(run, S, name, spec, kw):
         run.ob(key + ':first', ok, rule='K4', expected='first column = d/|d|', found=[A.show(x.norm(), 4) for x in c1], where=where)
         dets.append(A.det([c1, c2]))
         if with_up:
-            if len(guards) != 1 or guards[0][0] != 'ite':
-                run.ob(key + ':side', False, rule='K4 guard-refined sign', expected='one comparison decides the orientation', found=str(guards)[:100], where=where)
-                continue
-            g_ = parse_guard(S, cv, guards[0][1])
-            want = guards[0][2] != g_['neg']
-            if g_['kind'] not in ('ge', 'gt', 'le', 'lt'):
-                run.ob(key + ':side', False, rule='K4 guard-refined sign', expected='an order comparison', found=g_['text'][:100], where=where)
-                continue
-            G = g_['a'] - g_['b']
-            if g_['kind'] in ('le', 'lt'):
-                G = -G
-            # guard true  <=>  G >= 0 (or > 0)
+            # whatever form the test takes (if, match on partial_cmp): the path must have established that the second
+            # column is on the side of up
             N = (A.dot(c2, up) * sigma).norm()
-            okp = None
-            for kq in (1, -1):
-                if A.eq(N, G * kq):
-                    okp = kq
-            good = (okp == 1 and want) or (okp == -1 and not want)
-            run.ob(key + ':side', good, rule='K4 guard-refined sign', expected='second column . up >= 0 on this branch (it equals +-guard polynomial / |d|)', found='N = %s, guard %s taken %s' % (A.show(N, 6), g_['text'][:80], want), where=where)
+            sg = sign_established(order_facts(S, cv, guards), N)
+            if sg == 'nan':
+                continue
+            run.ob(key + ':side', sg == 1, rule='K4 guard-refined sign', expected='second column . up >= 0 established on this branch (it equals +-guard polynomial / |d|)', found='N = %s, established sign %s' % (A.show(N, 6), sg), where=where)
     if not with_up:
-        ok = (A.eq(dets[0], ONE) and A.eq(dets[1], -ONE)) or (A.eq(dets[0], -ONE) and A.eq(dets[1], ONE))
+        ok = len(dets) == 2 and ((A.eq(dets[0], ONE) and A.eq(dets[1], -ONE)) or (A.eq(dets[0], -ONE) and A.eq(dets[1], ONE)))
         run.ob('%s:%s:orientations' % (PROP, name), ok, rule='K4', expected='the two flip values give the two orientations (det = +1 / -1)', found=[A.show(x.norm()) for x in dets], where=where)
 
 
@@ -301,8 +289,8 @@ def check_view2t(run, S, name, spec, kw):
     d = A.vsub(eye, cen) if flip else A.vsub(cen, eye)
     sigma = A.sqrt(A.dot(d, d))
     ls = ret_leaves(r['out'])
-    if len(ls) != 2 or any(l['k'] != 'ret' for g_, l in ls):
-        run.ob('%s:%s:shape' % (PROP, name), False, rule='K5', expected='two Return leaves (the two orientations)', found=[l['k'] for g_, l in ls], where=where)
+    if not (2 <= len(ls) <= 8) or any(l['k'] != 'ret' for g_, l in ls):
+        run.ob('%s:%s:shape' % (PROP, name), False, rule='K5', expected='Return leaves (the two orientations)', found=[l['k'] for g_, l in ls], where=where)
         return
     for li, (guards, leaf) in enumerate(ls):
         v = cv.val(leaf['v'])
@@ -322,20 +310,10 @@ def check_view2t(run, S, name, spec, kw):
         run.ob(key + ':orthonormal', ok, rule='K4', expected='orthonormal columns', found='holds' if ok else 'fails', where=where)
         ok = all(A.eq(x * sigma, y) for x, y in zip(c1, d))
         run.ob(key + ':first', ok, rule='K4', expected='first column = d/|d| with d = %s' % ('eye - center' if flip else 'center - eye'), found=[A.show(x.norm(), 4) for x in c1], where=where)
-        if len(guards) == 1 and guards[0][0] == 'ite':
-            g_ = parse_guard(S, cv, guards[0][1])
-            want = guards[0][2] != g_['neg']
-            if g_['kind'] in ('ge', 'gt', 'le', 'lt'):
-                G = g_['a'] - g_['b']
-                if g_['kind'] in ('le', 'lt'):
-                    G = -G
-                N = (A.dot(c2, up) * sigma).norm()
-                okp = 1 if A.eq(N, G) else (-1 if A.eq(N, -G) else None)
-                run.ob(key + ':side', (okp == 1 and want) or (okp == -1 and not want), rule='K4 guard-refined sign', expected='second column . up >= 0 on this branch', found='N = %s' % A.show(N, 6), where=where)
-            else:
-                run.ob(key + ':side', False, rule='K4 guard-refined sign', expected='an order comparison', found=g_['text'][:100], where=where)
-        else:
-            run.ob(key + ':side', False, rule='K4 guard-refined sign', expected='one comparison decides the orientation', found=str(guards)[:100], where=where)
+        N = (A.dot(c2, up) * sigma).norm()
+        sg = sign_established(order_facts(S, cv, guards), N)
+        if sg != 'nan':
+            run.ob(key + ':side', sg == 1, rule='K4 guard-refined sign', expected='second column . up >= 0 established on this branch', found='N = %s, established sign %s' % (A.show(N, 6), sg), where=where)
         if disp is not None:
             exp = A.matvec([c1, c2], [-x for x in eye])
             ok = all(A.eq(x, y) for x, y in zip(disp, exp))
